@@ -86,7 +86,10 @@ def text_pool(seed):
             day = sib.start.replace(hour=0, minute=0)  # the first working day: that is where the work is
             while day.weekday() >= 5:
                 day += timedelta(days=1)
-            sib.vacations = list(sib.vacations) + [Leave("vacation", day, None)]
+            if k == 0:
+                sib.vacations = list(sib.vacations) + [Leave("vacation", day, None)]
+            else:  # the same through a global 'leaves' statement (kept in another structure of the project)
+                sib.gleaves = list(sib.gleaves) + [Leave("leaves", day, day + timedelta(days=2), ltype="holiday")]
             sib.reports = [ReportDef(id="r1", name="sched", columns=["id", "start", "end"], formats=["json"])]
             siblings.append(("sibling%d" % k, render(sib)))
         spec.reports = [ReportDef(id="r1", name="sched", columns=["id", "start", "end", "priority"], formats=["json", "csv"]),
